@@ -233,10 +233,10 @@ func (e *refEncoder) enc(n *Node, v reflect.Value) Enc {
 		out.B = append(out.B, raw...)
 		return out
 	case KBigInt:
-		if v.IsNil() {
+		bi := BigOf(v)
+		if bi == nil {
 			return reject("nil *big.Int")
 		}
-		bi, _ := v.Interface().(*big.Int)
 		if bi.Sign() < 0 {
 			return reject("negative uint256")
 		}
